@@ -1148,7 +1148,9 @@ theorem visitStarts_sched {r : Root} {s : Id} (hu : Up r) (hnd : NoDangling r) (
   obtain ⟨hN, hB⟩ := dfs_nodup List.nodup_nil (fun i hi => by cases hi) hdfs
   have hndD := hP.frame.flagsRel.edges.1 hnd
   have hSch : Scheduled r s rD buf := by
-    refine ⟨hP.frame, hN, hin hs, ?_, ?_, ?_, markDependentsDirty_get? rD s⟩
+    obtain ⟨ns, hns⟩ := Root.alive_iff.1 hs
+    refine ⟨hP.frame, hN, hin hs, ?_, ?_, ?_, markDependentsDirty_get? rD s,
+      by simpa using dfs_last hdfs hns (hm s ns hns)⟩
     · intro j n hj
       by_cases hb : j ∈ buf
       · obtain ⟨n', hn', hp⟩ := hB j hb
